@@ -296,6 +296,18 @@ func c16(e *Env) {
 	case 0:
 		// sequences of additions, removals and restarts; after the last one routing equals the backend's view
 		nf := 1 + c.Choose("nfaults", 5)
+		if len(w.Nodes) > 2 && c.Choose("node-announces-another-address", 6) == 5 {
+			// one node (not the one with the control connection) says something else about itself
+			// than its peers say about it: it serves requests, but a control connection that lands
+			// on it is refused by the proxy ("host not found in system tables") and moves on
+			for _, n := range w.Nodes {
+				if n != controlNode() {
+					n.AnnounceIP = net.IPv4(10, 0, 9, byte(1+c.Choose("announced", 200)))
+					e.Res.Stats["probe.c16.node_announces_another_address"]++
+					break
+				}
+			}
+		}
 		var cl2 *world.Client // a client with other settings, connected during a refresh (some runs)
 		addedAt := map[*world.Node]time.Duration{}
 		for _, n := range w.Nodes {
@@ -362,7 +374,10 @@ func c16(e *Env) {
 				}
 				// the proxy can only follow the cluster through a host it already knows: a removal is
 				// allowed when some other live member has been part of the cluster for longer than the bound
-				known := func(x *world.Node) bool { return x.Up && x.InCluster && w.Now()-addedAt[x] > bound }
+				// (a node that announces another address cannot carry the control connection: it does not count)
+				known := func(x *world.Node) bool {
+					return x.Up && x.InCluster && x.AnnounceIP == nil && w.Now()-addedAt[x] > bound
+				}
 				if len(cands) > 1 {
 					n := cands[c.Choose("rmwho", len(cands))]
 					other := false
@@ -504,6 +519,18 @@ func c16(e *Env) {
 		}
 		// removed nodes are not dialled any more either (their pools are gone)
 		w.RunUntil(func() bool { return false }, cfg.ReconnMax+cfg.ConnectTimeout+5*time.Second)
+		// ... and nothing that never was a member is dialled at all
+		for addr, ts := range w.DialAttempts {
+			if w.NodeByAddr(addr) != nil {
+				continue
+			}
+			for _, t := range ts {
+				if t > tProbe {
+					w.Violate("c16-topology", "non-member-dialled", fmt.Sprintf("the proxy dialled %s at %v, an address that no node of the cluster has or had", addr, t))
+					return
+				}
+			}
+		}
 		for _, n := range w.Nodes {
 			if n.InCluster || n == controlNode() {
 				continue
